@@ -891,20 +891,19 @@ def safe_mismatches(imports, items, tag, base=0, timeout=420):
                     os.remove(os.path.join(common.WORK, f))
                 except OSError:
                     pass
+        timed_out = "timed out" in str(e) or isinstance(e, subprocess.TimeoutExpired)
         if len(items) == 1:
-            return {0: "@@MODEL-TIMEOUT"}
-        if "timed out" not in str(e) and not isinstance(e, subprocess.TimeoutExpired):
-            raise
+            return {0: "@@MODEL-TIMEOUT" if timed_out else "@@MODEL-ERROR " + str(e)[-300:].replace("\n", " ")}
         h = len(items) // 2
-        a = safe_mismatches(imports, items[:h], tag + "a", timeout=max(60, timeout // 2))
-        b = safe_mismatches(imports, items[h:], tag + "b", timeout=max(60, timeout // 2))
+        a = safe_mismatches(imports, items[:h], tag + "a", timeout=timeout)
+        b = safe_mismatches(imports, items[h:], tag + "b", timeout=timeout)
         out = dict(a)
         out.update({k + h: v for k, v in b.items()})
         return out
 
 
 # -------------------------------------------------------------- harness I/O
-def run_vm_harness(binary, lines, chunk_timeout=30):
+def run_vm_harness(binary, lines, chunk_timeout=60):
     """like common.run_harness, but a hanging case (non-terminating program) is
     isolated and reported as @@TIMEOUT instead of raising."""
     if not lines:
@@ -931,7 +930,7 @@ def run_vm_harness(binary, lines, chunk_timeout=30):
             return out
         res = []
         for c in chunk:
-            o = run([c], 4)
+            o = run([c], 5) or run([c], 30)     # a slow case under load is not a hang: retry once, generously
             res.append(o[0] if o else "R:@@TIMEOUT-OR-CRASH ## O: ## D:")
         return res
 
@@ -972,6 +971,8 @@ def classify(impl_line, model_str):
     io, idump = impl_obs(impl_line)
     if model_str == "@@MODEL-TIMEOUT":
         return "model-timeout", "the model evaluation of this case did not finish"
+    if model_str.startswith("@@MODEL-ERROR"):
+        return "model-machine", "the model could not be evaluated on this case: " + model_str[13:]
     parts = model_str.split(" || ")
     if len(parts) != 3:
         return "model-machine", "unparsable model output"
